@@ -254,7 +254,7 @@ class Engine:
     # names
 
     def resolve_global(self, name, mi):
-        if name in mi.classes or name in ("Fragment", "Gap", "Scaffold", "OverlapResult", "Assembly", "IndexedAssembly", "FoundFragment", "BytesIO", "ChrNamer"):
+        if name in mi.classes or name in ("Fragment", "Gap", "Scaffold", "OverlapResult", "Assembly", "IndexedAssembly", "FoundFragment", "BytesIO", "ChrNamer", "StartOverhangPremise", "EndOverhangPremise"):
             return Val(TConst(), ("class", name))
         if name in mi.imports:
             tgt = mi.imports[name]
@@ -1227,6 +1227,12 @@ class Engine:
                 raise OutOfSubset(f"argument {what}: str where int expected at L{line}")
             self.guard(s, exc, "ValueError", is_decimal(v.z), f"int() of {what}", line)
             return mk_int(z3.StrToInt(v.z))
+        if isinstance(ty, TList) and isinstance(v.ty, TList) and sort_key(ty.elem) != sort_key(v.ty.elem):
+            # an empty list display carries no element type of its own: it takes the one the slot declares
+            lv = ListView(s, v.z, v.ty.elem)
+            if z3.is_int_value(z3.simplify(lv.len)) and z3.simplify(lv.len).as_long() == 0:
+                set_list(s, ty.elem, v.z, lo=z3.IntVal(0), hi=z3.IntVal(0))
+                return Val(ty, v.z)
         if ty == STRSEQ and v.ty == STRLIST:
             return Val(STRSEQ, v.z)
         if isinstance(ty, TTuple) and isinstance(v.ty, TTuple) and isinstance(v.z, tuple) and len(v.z) == len(ty.elems):
@@ -2875,6 +2881,7 @@ CLASS_MODULES = {
     "AssemblyStats": ["tola.assembly.assembly_stats"],
     "ChrNamer": ["tola.assembly.build_utils"],
     "OverhangPremise": ["tola.assembly.build_utils"],
+    "OverhangResolver": ["tola.assembly.build_utils"],
     "StartOverhangPremise": ["tola.assembly.build_utils"],
     "EndOverhangPremise": ["tola.assembly.build_utils"],
 }
